@@ -2,7 +2,7 @@ PROPERTY = "C15"
 LEVEL = "proof"
 LEAN_MODULES = ["CifModel.Props.C15"]
 REQUIRED = ["CifModel.C15_skip_depth_balanced_partial", "CifModel.C15_result_nonneg", "CifModel.C15_positive_aborts_local",
-            "CifModel.C15_loop_start_local", "CifModel.C15_cex_loop_start", "CifModel.C15_positive_aborts_full_is_false"]
+            "CifModel.C15_loop_start_local", "CifModel.C15_cex_loop_start_pinned", "CifModel.C15_loop_start_code_returned"]
 GEN = ["ErrCodes"]
 FAMILIES = ["pcb"]
 TRUSTED_BASE = [
@@ -29,15 +29,14 @@ PARTIAL = [
     "global theorems (stated as *_full propositions); proved are the local laws C15_positive_aborts_local / "
     "C15_loop_start_local at every handler call site and C15_result_nonneg; the global statements are checked by the "
     "independent oracle of the pcb family on every run",
-    "C15_positive_aborts_full is false for the code as it is (C15_cex_loop_start; open finding F33-loop-start-code-ignored)",
 ]
 LEVEL_TEXT = ("Partial proof about the executable token-level model ParseCB.parseCB (all token sequences, all handler "
               "programs): skip_depth balance of the value, item and packet-loop productions, non-negativity, local "
-              "abort laws at the handler call sites, kernel-checked counterexample for the loop_start defect; the model is "
+              "abort laws at the handler call sites, the repaired loop_start defect F33 as a statement about the pinned step; the model is "
               "tied to src/parser.c by differential execution in storing and syntax-only mode with an independent "
               "implementation-level oracle that restates C15 (document-order mirror, same log in both modes, skip / END / "
               "error semantics, stored content).")
 LEVEL_NOTE = ("Global C15 theorems are not proved (see partial); assurance for them is the correspondence run + oracle. "
-              "Open finding F33. Trusted: Lean kernel, model transcription (checked by correspondence), renderer/oracle in "
+              "F33 fixed by 43d0bb7. Trusted: Lean kernel, model transcription (checked by correspondence), renderer/oracle in "
               "tools/gen/pcb.py, harness.")
 TECHNIQUE = "Lean 4 proof (fuel induction with a boundary invariant for skip_depth) + differential correspondence with an independent oracle"
